@@ -42,7 +42,9 @@ path = "{ROOT}/rt/vgen_main.rs"
 peginator_codegen = {{ path = "{kani.REPO}/codegen" }}
 ''')
 kani.lockfile_for(d)
-env = dict(os.environ, CARGO_NET_OFFLINE="true", RUSTFLAGS="-C instrument-coverage", RUSTUP_TOOLCHAIN="nightly")
+# build scripts of the instrumented crates write profiles too: keep them out of /repo
+env = dict(os.environ, CARGO_NET_OFFLINE="true", RUSTFLAGS="-C instrument-coverage", RUSTUP_TOOLCHAIN="nightly",
+           LLVM_PROFILE_FILE=W + "/build-%p.profraw")
 p = subprocess.run(["cargo", "build", "--offline", "--target-dir", d + "/target"], cwd=d, env=env, capture_output=True, text=True)
 if p.returncode:
     print(p.stderr[-3000:]); sys.exit(1)
